@@ -46,6 +46,9 @@ type Check[C any] struct {
 	*Def[C]
 	Sub *Sub
 	col *Collector
+	// Hang decides whether not returning (or exhausting memory) on case c is itself a
+	// violation of the property; it returns the failure signature, or "" for "inconclusive".
+	Hang func(c *C) string
 }
 
 // On binds the definition to a collector for one run.
@@ -56,7 +59,17 @@ func (d *Def[C]) On(col *Collector, rule string, exhaustive bool) *Check[C] {
 // Run evaluates one case. It returns a violation only if it is not a listed known finding.
 func (k *Check[C]) Run(c *C) *Violation {
 	k.Sub.Eval()
+	k.col.BeginV(func() string { return string(MustJSON(c)) }, func() *Violation {
+		if k.Hang == nil {
+			return nil
+		}
+		if sig := k.Hang(c); sig != "" {
+			return &Violation{Check: k.Name, Sig: sig, Message: "the case did not return", Case: MustJSON(c)}
+		}
+		return nil
+	})
 	v := k.Eval(c, k.Sub)
+	k.col.End()
 	if v == nil {
 		return nil
 	}
